@@ -59,8 +59,13 @@ package premium
 //@ ensures builtin-rate: (result1 == nil && !uf("hasRate", false, "default", asset, operation)) ==> (result0 != nil && result0.premiumRate != nil && result0.premiumRate.ppmValue == DefaultPremiumRate[asset][operation])
 //@ assigns nothing
 
+// the effective rate and the premium as spec abbreviations (used by C11/C12 contracts in package swap too)
+//@ define premiumRateOf(peer, asset, op) ite(uf("hasRate", false, peer, asset, op), uf("storedRate", int64(0), peer, asset, op), ite(uf("hasRate", false, "default", asset, op), uf("storedRate", int64(0), "default", asset, op), DefaultPremiumRate[asset][op]))
+//@ define premiumOf(peer, asset, op, amt) int64(amt/1000000)*premiumRateOf(peer, asset, op) + int64(amt%1000000)*premiumRateOf(peer, asset, op)/1000000
+
 //@ func (*Setting).Compute
-//@ property C27 C12
+//@ property C27 C12 C11
+//@ ensures effective-rate: result1 == nil ==> result0 == premiumOf(peerID, asset, operation, amtSat)
 //@ ensures peer-rate: (result1 == nil && uf("hasRate", false, peerID, asset, operation)) ==> result0 == int64(amtSat/1000000)*uf("storedRate", int64(0), peerID, asset, operation) + int64(amtSat%1000000)*uf("storedRate", int64(0), peerID, asset, operation)/1000000
 //@ ensures global-rate: (result1 == nil && !uf("hasRate", false, peerID, asset, operation) && uf("hasRate", false, "default", asset, operation)) ==> result0 == int64(amtSat/1000000)*uf("storedRate", int64(0), "default", asset, operation) + int64(amtSat%1000000)*uf("storedRate", int64(0), "default", asset, operation)/1000000
 //@ ensures builtin-rate: (result1 == nil && !uf("hasRate", false, peerID, asset, operation) && !uf("hasRate", false, "default", asset, operation)) ==> result0 == int64(amtSat/1000000)*DefaultPremiumRate[asset][operation] + int64(amtSat%1000000)*DefaultPremiumRate[asset][operation]/1000000
